@@ -458,12 +458,21 @@ def handle (toks : List String) (impl : String) : Verdict :=
             (name == str "readpicture" || name == str "albumart") && artReqs.any fun (_, u) => u == uri
           | _ => false
         !(isRaw || isTyped || isArt)
+    -- C06: the password is an argument: MPD's tokenizer reads the first line written as exactly
+    -- `password <the string the caller supplied>` (K1 class apart: quote/backslash without blank)
+    let pwLineBad : Bool := match pw with
+      | none => false
+      | some p =>
+        !f.writes.isEmpty && !(Cmd.isK1 p) && tok (f.writes.takeWhile (· != LF)) != some (str "password", [p])
     let oracle : String :=
       if impl == "PANIC" then "fail:panic"
       else if on "C08" && f.closings > 1 then "fail:C08-more-than-one-closing-event"
       else if on "C08" && f.afterEnd then "fail:C08-activity-after-the-end"
       else if on "C05" && honest && !f.sv.violations.isEmpty then "fail:C05-line-written-while-server-idles"
-      else if (on "C05" || on "C01" || on "C17") && password.isNone && strangerBlock then "fail:C05-request-line-that-no-caller-issued"
+      else if (on "C05" || on "C01" || on "C17" || on "C07") && password.isNone && strangerBlock then "fail:C05-request-line-that-no-caller-issued"
+      else if prop == "C07" && honest && !f.wblockSeen && !f.readEnds && !f.writes.isEmpty && f.writes.getLast? != some LF then
+        "fail:C07-request-cut-in-the-middle-of-a-line"
+      else if prop == "C06" && pwLineBad then "fail:C06-password-argument-not-read-back-by-the-server"
       else if on "C18" && honest && !f.sv.authLines.isEmpty then "fail:C18-request-before-password-accepted"
       else if on "C18" && f.idleBeforeAuth then "fail:C18-idle-before-password-accepted"
       else if on "C18" && f.connNoAccept then "fail:C18-connected-without-the-server-accepting-the-password"
@@ -478,7 +487,7 @@ def handle (toks : List String) (impl : String) : Verdict :=
       | none =>
         if on "C01" && honest && !fifoOk then "fail:C01-requests-out-of-order"
         else if on "C13" && honest && connectedOk && !f.dropMain && typedPending then "fail:C13-typed-list-never-answered"
-        else if on "C13" && honest && typedFramingBad.isSome then s!"fail:C13-list-not-framed-as-one-block-{typedFramingBad.getD 0}"
+        else if (on "C13" || prop == "C07") && honest && typedFramingBad.isSome then s!"fail:C13-list-not-framed-as-one-block-{typedFramingBad.getD 0}"
         else if on "C04" && startsWith f.sv.out body && !(isSubseq f.events reported) then "fail:C04-event-not-reported-by-server"
         else if on "C04" && f.evLowerBad then "fail:C04-consumed-idle-reply-produced-no-events"
         else if on "C04" && honest && connectedOk && !f.dropMain && !f.evDropped && !eventsExact then
